@@ -73,6 +73,9 @@ type ledGen struct {
 	// > 0: the history lowers consensus.MASSIP0002WarmUpHeight to this value (op `warmup`): binding outputs at or above
 	// it are spent under the MASSIP-2 sequence rule (C10 withdraw_sequence, C03 ScriptMASSip2)
 	warm int
+	// optional hook run on every transaction just before it is emitted (nil = none; set by the txb generator,
+	// which must keep the amounts of a wallet's coins pairwise distinct: see txbGen.uniqAmounts)
+	fixTx func(t *gTx)
 }
 
 func (l *ledGen) op(class, f string, a ...interface{}) { l.g.Op(class, f, a...) }
@@ -234,6 +237,9 @@ func (l *ledGen) makeTx(ins []gCoin, kind string) *gTx {
 func (l *ledGen) define(t *gTx) {
 	if _, ok := l.defined[t.name]; ok {
 		return
+	}
+	if l.fixTx != nil {
+		l.fixTx(t)
 	}
 	l.defined[t.name] = t
 	l.op("tx", "%s", t.line)
@@ -623,6 +629,10 @@ func genLed(g *Gen) {
 	genCodecInto(g) // byte-level tie of the bucket codecs (engine codec), part of C01 / C09 / C10
 	nHist := g.Scale(120, 4000)
 	for h := 0; h < nHist || (!g.Covered() && h < 6*nHist); h++ {
+		if h%12 == 7 && (g.Prop == "C10" || g.Prop == "C01") { // stale wallet, same block-file offsets (gen_stale_same.go)
+			genStaleSame(g)
+			continue
+		}
 		l := newLedGen(g, "led")
 		if g.Prop == "C10" && h%4 == 1 {
 			l.warm = 2 + h/4%5 // every fourth C10 history runs with a MASSIP-2 warm-up height of 2..6
